@@ -74,6 +74,9 @@ JudgeRace(e) ==
   LET k1 == e.a.inparse /\ e.b.inparse
       k2 == \/ (e.a.inparse /\ ~e.b.inparse /\ e.a.op # "read" /\ e.b.op # "write")
             \/ (e.b.inparse /\ ~e.a.inparse /\ e.b.op # "read" /\ e.a.op # "write")
+            \* a crash in a reader of a schema's relationship maps, raised by a concurrent write whose
+            \* goroutine is no longer inside the parse when the runtime dumps the stacks
+            \/ (~e.a.inparse /\ ~e.b.inparse /\ e.lonereader)
   IN [ok |-> FALSE, sig |-> IF k1 THEN "race_k1_parse_vs_parse" ELSE IF k2 THEN "race_k2_parse_write_vs_caller_read" ELSE "", why |-> "data race"]
 
 EndEv ==
